@@ -530,6 +530,18 @@ def gen_software_matrix(rng, size: int = 1, agents: bool = True) -> dict:
         if rng.chance(1, 4):
             h["folders"] = _folders(rng, rng.range(1, 2))
         _matrix_software(rng, h, env, must=musts[2 * i: 2 * i + 2])
+        # options with a second source outside the entry (dns-client `dns_server` vs the node's `dns_server`): the four
+        # combinations neither / only outer / only inner / both (different values), one per host in turn
+        combo = (i + rng.below(4)) % 4 if i >= 4 else i % 4
+        svcs = [e for e in h.get("services", []) if e["type"] != "dns-client"]
+        if combo in (1, 3):
+            h["dns_server"] = f"{env['prefix']}.{200 + i}"
+        if combo in (2, 3):
+            svcs.append({"type": "dns-client", "options": {"dns_server": f"{env['prefix']}.{220 + i}"}})
+        elif rng.chance(1, 2):
+            svcs.append({"type": "dns-client"} if rng.chance(1, 2) else {"type": "dns-client", "options": {}})
+        if svcs:
+            h["services"] = svcs
         hosts.append(h)
     nodes: List[dict] = []
     links: List[dict] = []
